@@ -236,7 +236,13 @@ func (s *clientSocket) Connect() {
 	s.manager.stateMu.RLock()
 	managerConnState := s.manager.state
 	s.manager.stateMu.RUnlock()
-	if managerConnState != clientConnStateReconnecting {
+	// The state is 'reconnecting' only between the attempts of a reconnection loop; during the
+	// dial of an attempt it is 'connecting'. An `open` started then would wait for the loop to
+	// end and, when the loop has given up, begin another one.
+	s.manager.reconnectLoopMu.RLock()
+	reconnectLoop := s.manager.reconnectLoop
+	s.manager.reconnectLoopMu.RUnlock()
+	if managerConnState != clientConnStateReconnecting && !reconnectLoop {
 		go s.manager.open()
 	}
 
